@@ -350,6 +350,13 @@ def _minimize_expr(expr, visibility, kconfig):
                 return y if kconfiglib.expr_value(expr) else n
             new_expr1 = _minimize_expr(expr[1], visibility, kconfig)
             new_expr2 = _minimize_expr(expr[2], visibility, kconfig)
+            if expr[0] in _COMPARISON_OPS:
+                # As an operand of a relation an undefined symbol stands for its own name (a string value), not for
+                # the bool n it is in a boolean context, so it must not be replaced: `FOO = bar` is not `FOO = n`.
+                if _is_undefined_reference(expr[1]):
+                    new_expr1 = expr[1]
+                if _is_undefined_reference(expr[2]):
+                    new_expr2 = expr[2]
             if expr[0] == kconfiglib.AND:
                 if new_expr1 is n or new_expr2 is n:
                     return n
